@@ -1009,3 +1009,44 @@ func (s *Server) DumpEntry(e *Entry) []byte {
 	s.opt.Registry.Add(v.Type, v.Raw, v.Log)
 	return rdbgen.Dump(v.Type, v.Raw, 9)
 }
+
+// ReplayCommands applies a recorded command sequence (as received, possibly from several
+// connections) to this server without any network: used to build the state a target is in
+// after a connection or process cut. A MULTI block that is still open at the end is discarded,
+// as Redis does when the client goes away.
+func (s *Server) ReplayCommands(cmds []Cmd) {
+	s.mu.Lock()
+	defer s.mu.Unlock()
+	states := map[int]*connState{}
+	for _, c := range cmds {
+		st := states[c.Conn]
+		if st == nil {
+			st = &connState{id: c.Conn, authed: true}
+			states[c.Conn] = st
+		}
+		s.received = append(s.received, c)
+		s.handle(st, Cmd{Conn: c.Conn, DB: st.db, Argv: c.Argv, InTx: st.multi})
+	}
+}
+
+// SnapshotExcept is Snapshot without the keys for which skip returns true.
+func (s *Server) SnapshotExcept(skip func(key string) bool) string {
+	full := s.Snapshot()
+	var out []string
+	for _, line := range strings.Split(full, "\n") {
+		if line == "" {
+			continue
+		}
+		// line: db<n> "<key>" = ...
+		i := strings.Index(line, " ")
+		rest := line[i+1:]
+		key, err := strconv.QuotedPrefix(rest)
+		if err == nil {
+			if k, err2 := strconv.Unquote(key); err2 == nil && skip(k) {
+				continue
+			}
+		}
+		out = append(out, line)
+	}
+	return strings.Join(out, "\n")
+}
